@@ -29,8 +29,8 @@ Definition enc_item (it : item) : list N :=
   match it with
   | Item ok l s e => [if ok then 1 else 0; match l with Some l => l + 1 | None => 0 end; s; e]
   end.
-Definition enc_result (r : list item * outcome) : list N :=
-  flat_map enc_item (fst r) ++
+Definition enc_result (r : list region * outcome) : list N :=
+  flat_map enc_item (items_of (fst r)) ++
   match snd r with Finished s e => [2; s; e] | Broken => [3] | Yield _ _ => [4] end.
 
 Definition run_ref (g : graph) (utf8 : bool) (codes : list N) (isprefix : bool) (w : list byte) : list N :=
@@ -47,6 +47,6 @@ Definition enc_outcome (o : outcome) : list N :=
   | Broken => [3]
   end.
 Definition run_next_ref (g : graph) (utf8 : bool) (codes : list N) (isprefix : bool) (w : list byte) (start : N) : list N :=
-  enc_outcome (next_from (attempt_ref g) (act_of codes w) (fb_of utf8 w) w isprefix (S (length w)) start).
+  enc_outcome (snd (next_from (attempt_ref g) (act_of codes w) (fb_of utf8 w) w isprefix (S (length w)) start)).
 Definition run_next_spec (d : dfa) (R : rankmap) (utf8 : bool) (codes : list N) (w : list byte) (start : N) : list N :=
-  enc_outcome (next_from (attempt_spec d (lv_of R)) (act_of codes w) (fb_of utf8 w) w false (S (length w)) start).
+  enc_outcome (snd (next_from (attempt_spec d (lv_of R)) (act_of codes w) (fb_of utf8 w) w false (S (length w)) start)).
